@@ -154,9 +154,6 @@ def run_case(case, ctx):
             ctx.check(SYMBOL_Z.get(e.symbol) == e.atomic_number, "atomic-number:periodic-table",
                       "element %s (%s) has atomic number %s, periodic table says %s" % (
                           e.name, e.symbol, e.atomic_number, SYMBOL_Z.get(e.symbol)), monitor="periodic_table")
-            ctx.check(e.atomic_weight > 0 and abs(e.atomic_weight - e.atomic_number) >= 0 and e.atomic_weight >= e.atomic_number * 0.99,
-                      "element-weight", "element %s has implausible atomic weight %r" % (e.name, e.atomic_weight),
-                      monitor="periodic_table")
         else:
             ctx.cls("isotope")
             i = obj
